@@ -215,15 +215,17 @@ func (u *uploader) ListParts(bucket, object string, uploadID UploadID, marker in
 		StorageClass:     "STANDARD", // FIXME
 	}
 
+	// The marker is the number of the part after which the listing begins;
+	// NextPartNumberMarker is the number of the last part listed.
 	var cnt int64
-	for partNumber, part := range mpu.parts[marker:] {
+	for partNumber := marker + 1; partNumber > 0 && partNumber < len(mpu.parts); partNumber++ {
+		part := mpu.parts[partNumber]
 		if part == nil {
 			continue
 		}
 
 		if cnt >= limit {
 			result.IsTruncated = true
-			result.NextPartNumberMarker = partNumber
 			break
 		}
 
@@ -233,6 +235,7 @@ func (u *uploader) ListParts(bucket, object string, uploadID UploadID, marker in
 			PartNumber:   partNumber,
 			LastModified: part.LastModified,
 		})
+		result.NextPartNumberMarker = partNumber
 
 		cnt++
 	}
